@@ -759,7 +759,7 @@ def run(ctx):
     fails = []
 
     # 2. S->C: simulated behaviours of the model replayed into quimb
-    nsim = 40 if quick else 400
+    nsim = 40 if quick else 500
     res = T.run_tlc("MC_C14", "MC_sim.cfg", ctx.spec_dir, workers=1, coverage=False, simulate="num=%d" % nsim,
                     depth=200, seed=5 + seed, scratch=ctx.scratch, timeout=900)
     behs = [b for b in T.parse_printed_json(res.output) if isinstance(b, dict) and "hist" in b]
@@ -775,7 +775,7 @@ def run(ctx):
 
     lap("replay")
     # 3. C->S: BP objects stepped through iterate() / run(callback)
-    nobj = 96 if quick else 900
+    nobj = 96 if quick else 1400
     orecs, ntr = object_traces(seed * 7919 + 1, nobj, 100000, sizes)
     lap("objects driving")
     ctx.sample({"object_trace": [{k: v for k, v in r.items() if k not in ("net", "msgs", "graph")} for r in orecs[:3]]})
@@ -783,11 +783,11 @@ def run(ctx):
 
     lap("objects")
     # 4. functional entry points, gauging / compression, sampling, schedule groups
-    erecs = entry_records(seed * 7919 + 2, 90 if quick else 800, 200000, sizes)
-    grecs = gauge_records(seed * 7919 + 3, 40 if quick else 300, 300000, sizes)
-    srecs = sample_records(seed * 7919 + 4, 24 if quick else 200, 400000)
-    qrecs = group_records(seed * 7919 + 5, 12 if quick else 60, 450000, sizes)
-    qrecs += region_records(seed * 7919 + 6, 12 if quick else 100, 460000)
+    erecs = entry_records(seed * 7919 + 2, 90 if quick else 1200, 200000, sizes)
+    grecs = gauge_records(seed * 7919 + 3, 40 if quick else 400, 300000, sizes)
+    srecs = sample_records(seed * 7919 + 4, 24 if quick else 300, 400000)
+    qrecs = group_records(seed * 7919 + 5, 12 if quick else 90, 450000, sizes)
+    qrecs += region_records(seed * 7919 + 6, 12 if quick else 150, 460000)
     lap("entry points driving")
     ctx.sample({"entry": {k: v for k, v in erecs[0].items() if k != "net"}})
     fails += ctx.validate("C14_Trace", "Trace.cfg", erecs + grecs + srecs + qrecs, name="entry-points",
